@@ -166,6 +166,15 @@ func vAssume(c bool)
 func vAssert(c bool, msg string)
 func vReach(label string)
 func vObserve(label string, v uint64)
+
+// helper used by the engine's model of sort.Slice / sort.SliceStable
+func vInsertionSort(n int, less func(i, j int) bool, swap func(i, j int)) {
+	for i := 1; i < n; i++ {
+		for j := i; j > 0 && less(j, j-1); j-- {
+			swap(j, j-1)
+		}
+	}
+}
 `
 }
 
@@ -257,7 +266,7 @@ func runHarness(ix *Index, h *Harness, tier string, solverOverride string) *RunR
 
 	e := &Engine{prog: prog, sv: NewSolver(solver, tc.QueryMs), globals: map[*ssa.Global]ObjID{}, Unsupp: map[string]int{}, MaxIter: tc.Unwind,
 		Entered: map[string]bool{}, Reached: map[string]*Vector{}, ReachObs: map[string][]string{}, maxPaths: tc.Paths, params: tc.Params, pins: h.Pins,
-		harnessID: h.ID, entryName: h.Entry, seenViol: map[string]bool{}, initPkgs: map[string]bool{}, frozenInputs: h.Frozen}
+		harnessID: h.ID, entryName: h.Entry, target: target, seenViol: map[string]bool{}, initPkgs: map[string]bool{}, frozenInputs: h.Frozen}
 	e.known = loadKnown(h.ID)
 	st := newState()
 	e.tolerant = true
